@@ -28,16 +28,16 @@ import (
 
 func cases(tier string) int {
 	if tier == "thorough" {
-		return 60000
+		return 200000
 	}
-	return 2000
+	return 16000
 }
 
 func cliEvery(tier string) int {
 	if tier == "thorough" {
-		return 201 // ~300 CLI cases (odd: spreads over the 16 workers)
+		return 401 // ~500 CLI cases (odd: spreads over the 16 workers)
 	}
-	return 81 // ~25 CLI cases
+	return 401 // ~40 CLI cases
 }
 
 var Check = &run.Check{
